@@ -248,6 +248,8 @@ def ctr_ctx(cr, im):
     c.alias_len = {"BlockSize": bs, "ParBlocksSize": NPAR, "IvSize": bs}
     c.trait_impl = {im["trait"]: (cr, im)}
     c.extra[("assoc_ty", "CtrNonce")] = nonce_ty
+    c.extra[("assoc_ty", "Backend")] = at["Backend"]["ty"]
+    c.extra[("assoc_ty", "Counter")] = at["Backend"]["ty"]
     c.extra["w"] = w
     c.extra["cs"] = cs
     F = Facts()
